@@ -59,7 +59,13 @@ Inductive cb :=
 | Reset            (* CDCStreamer.Reset before a log entry is applied *)
 | Pre (d : raw)    (* pre-update hook *)
 | Commit           (* commit hook *)
-| Rollback.        (* rollback hook *)
+| Rollback         (* rollback hook *)
+| Schema (e : alist (list string)).
+                   (* not a callback: from here on ColumnNames(table) answers e.  db.ColumnNames reads the names
+                      on a pooled read-only connection from a statement prepared against that connection's cached
+                      schema; the cache is renewed when the connection steps a statement.  So after a schema change
+                      the answers change when the read connection first steps a statement (a read, or the lookup of
+                      the first commit itself - whose answer is still the old one). *)
 
 (* ColumnNames(table) at commit time *)
 Definition colenv := alist (list string).
@@ -87,11 +93,13 @@ Definition streamer_step (c : cfg) (env : colenv) (pending : list event) (x : cb
               | _ => ([], Some (map (attach_cols env) pending))
               end
   | Rollback => ([], None)
+  | Schema _ => (pending, None)
   end.
 
 Fixpoint streamer (c : cfg) (env : colenv) (pending : list event) (tr : list cb) : list (list event) :=
   match tr with
   | [] => []
+  | Schema e :: r => streamer c e pending r
   | x :: r =>
       let '(p', out) := streamer_step c env pending x in
       match out with
